@@ -12,6 +12,10 @@ MAX32 = lit_int(4294967295)
 SYNTH = ("lit", "str", "R8$$SyntheticClass")
 
 
+def is_next(name):
+    return name.endswith(("Iterator::next", "Iterator>::next"))
+
+
 def is_(t, v):
     return ("is", t, v)
 
@@ -35,9 +39,9 @@ FRAME = ("in", "frame")
 
 def rw_iter(t):
     """rename `iter.next()` results of the (single) driving iterator to NEXT / ELEM"""
-    if t[0] == "payload" and t[2] == "Some" and (t[1] == NEXT or (t[1][0] == "mcall" and t[1][1].endswith("Iterator::next"))):
+    if t[0] == "payload" and t[2] == "Some" and (t[1] == NEXT or (t[1][0] == "mcall" and is_next(t[1][1]))):
         return ELEM
-    if t[0] == "mcall" and t[1].endswith("Iterator::next"):
+    if t[0] == "mcall" and is_next(t[1]):
         return NEXT
     return None
 
